@@ -727,3 +727,77 @@ def rule_nonconsumption(facts):
     r.samples = [{"wrappers": n}]
     r.require_floor(n, facts, "NONCONSUMPTION-FWD.wrappers", "IterParser wrappers")
     return r
+
+
+# ====================================================================== SEQ-PROV (token-set membership)
+
+SEQ_ALLOWED = [
+    ["eq(arg1, arg2) [always]"],
+    ["contains(arg1, arg2) [always]"],
+    ["contains(new(arg1), arg2) [always]", "new(arg1) [always]"],
+    ["any(iter(arg1), closure) [always]", "closure: eq(arg2, arg1.0)", "iter(arg1) [always]"],
+]
+
+
+def rule_seq_prov(facts):
+    """`one_of`/`none_of`/`just` decide membership through `Seq::contains`: every impl must test the token
+    against the whole container with the element type's own equality (no re-encoding, no partial scan)."""
+    r = RuleResult("SEQ-PROV")
+    n = 0
+    for b in facts.bodies:
+        if b["kind"] == "Closure" or b.get("impl_trait") != "container::Seq" or b["name"] != "contains":
+            continue
+        n += 1
+        got = call_prov_of(facts, b)
+        ok = got in [sorted(x) for x in SEQ_ALLOWED]
+        r.ob(ok)
+        if len(r.samples) < 3:
+            r.samples.append({b["qname"]: got})
+        if not ok:
+            r.violations.append(V("SEQ-PROV", b["qname"], "membership test",
+                                  "Seq::contains for this container must be the container's own `contains(self, val)` / `==` on the "
+                                  "token (so that one_of/none_of accept exactly the listed tokens); found %s" % got, *loc(b)))
+    r.explanation = ("all %d `container::Seq::contains` impls delegate membership to the container's own contains()/== on (self, token), "
+                     "unconditionally" % n)
+    r.nontrivial = n
+    r.require_floor(n, facts, "SEQ-PROV.impls", "Seq::contains impls")
+    return r
+
+
+# ====================================================================== ENTRY-SIB (parse vs check entry points)
+
+def rule_entry_sib(facts):
+    """parse_with_state and check_with_state are the same code modulo the mode."""
+    r = RuleResult("ENTRY-SIB")
+    a = facts.find("Parser::parse_with_state")
+    b = facts.find("Parser::check_with_state")
+    if len(a) != 1 or len(b) != 1:
+        r.errors.append("anchors parse_with_state/check_with_state: %d/%d" % (len(a), len(b)))
+        return r
+
+    def sig(x):
+        out = []
+        for s in call_prov_of(facts, x):
+            if s.startswith("new(Option{") or s.startswith("new(Option"):
+                s = "new(<Some(output) | None>, <errors>)"      # parse wraps the output, check wraps ()
+            out.append(s)
+        # mode of the go call
+        modes = []
+        for _, bl, t, f in calls(x):
+            if f is not None and f["name"] == "go":
+                modes += [m.split("::")[-1] for m in f.get("args", []) if m in ("private::Emit", "private::Check")]
+        return sorted(out), modes
+    sa, ma = sig(a[0])
+    sb, mb = sig(b[0])
+    ok = sa == sb and ma == ["Emit"] and mb == ["Check"]
+    r.ob(ok)
+    r.samples.append({"calls": sa[:6], "modes": [ma, mb]})
+    if not ok:
+        diff = sorted(set(sa) ^ set(sb))
+        r.violations.append(V("ENTRY-SIB", "Parser::check_with_state", "entry points differ beyond the mode",
+                              "parse_with_state and check_with_state must perform the same calls on the same operands (run the grammar, take "
+                              "the pending error, collect the error list, push on failure) and differ only in Emit vs Check; differing: %s; "
+                              "modes %s/%s" % (diff[:6], ma, mb), *loc(b[0])))
+    r.explanation = "parse_with_state and check_with_state have identical call/operand provenance (%d calls) and differ only in the mode of `go`" % len(sa)
+    r.nontrivial = 1
+    return r
